@@ -393,6 +393,27 @@ theorem guard_absent (ws : List WProp) (r : RProp) (hone : r.names.length ≠ 1)
     apply hnot
     rw [← hke, ← e]; exact props_name_mem ws p hp
 
+/-- `ws` split at (the first occurrence of) `w` -/
+theorem split_at_writer : ∀ (ws : List WProp) (w : WProp), w ∈ ws → ∃ A, ws = A ++ w :: writersAfter ws w := by
+  intro ws w
+  induction ws with
+  | nil => intro h; simp at h
+  | cons x ws ih =>
+    intro hw
+    by_cases hx : x = w
+    · subst hx
+      exact ⟨[], by simp [writersAfter]⟩
+    · have hw' : w ∈ ws := by simpa [Ne.symm hx] using hw
+      obtain ⟨A, hA⟩ := ih hw'
+      refine ⟨x :: A, ?_⟩
+      have : writersAfter (x :: ws) w = writersAfter ws w := by
+        simp [writersAfter, hx]
+      rw [this]
+      simpa using hA
+
+theorem wsProps_append (a b : List WProp) : wsProps (a ++ b) = wsProps a ++ wsProps b := by
+  simp [wsProps]
+
 /-- THE CLAIM OF ONE DEFAULT READER on the header the writers `ws` produce, inside the guard: `PropertyReader.build*`
 builds exactly the predicted reader — all names of one writer, or the first three of an IgnorableW group whose fourth
 name is absent, the scalar property, or nothing — located at the header positions of its names, with the writer's type -/
@@ -435,37 +456,75 @@ theorem buildReader_expect (binary : Bool) (ws : List WProp) (hnd : (wsNames ws)
       rw [this]
       simp [expectBuilt, expectNames, hone, hf, hty]
     | none =>
-      by_cases hc : (r.ignorableW && !(wsNames ws).contains (r.names.getD 3 [])) = true
-      · have hc' := hc
-        simp only [Bool.and_eq_true, Bool.not_eq_true', List.contains_eq_mem, decide_eq_false_iff_not] at hc'
-        have h4 := hign hc'.1
+      by_cases hi : r.ignorableW = true
+      · have h4 := hign hi
+        have hg3 : r.names.getD 3 [] = r.names[3]'(by omega) := by
+          simp [List.getD_eq_getElem?_getD, List.getElem?_eq_getElem (show 3 < r.names.length by omega)]
         cases hf3 : ws.find? (fun w => w.names == r.names.take 3) with
         | some w =>
           have hw := List.mem_of_find?_eq_some hf3
           have hwn : w.names = r.names.take 3 := by simpa using List.find?_some hf3
           have hsub : ∀ n ∈ r.names.take 3, n ∈ w.names := by rw [hwn]; exact fun n h => h
-          have := buildReader_fallback binary (wsProps ws) r h4 hc'.1 hrn hpn w.ty ((r.names.take 3).map (posOf (wsProps ws)))
-            (by simp [h4])
-            (fun k hk => by
-              obtain ⟨hi, hpe⟩ := writer_positions ws hnd w hw (r.names.take 3) hsub k (by simp [h4]; omega)
-              simp only [List.getElem_take] at hi hpe
-              exact ⟨by simpa using hi, by simpa using hpe⟩)
-            (by
-              intro p hp e
-              apply hc'.2
-              have : r.names.getD 3 [] = r.names[3]'(by omega) := by
-                simp [List.getD_eq_getElem?_getD, List.getElem?_eq_getElem (show 3 < r.names.length by omega)]
-              rw [this, ← e]; exact props_name_mem ws p hp)
-          rw [this]
-          simp only [expectBuilt, expectNames, hone, if_false, hf, hc, if_true, hf3, Option.map_some, hty]
+          have hpos : ∀ k (hk : k < 3), ∃ hi : posOf (wsProps ws) (r.names[k]'(by omega)) < (wsProps ws).length,
+              (wsProps ws)[posOf (wsProps ws) (r.names[k]'(by omega))] = (r.names[k]'(by omega), w.ty) := by
+            intro k hk
+            obtain ⟨hi', hpe⟩ := writer_positions ws hnd w hw (r.names.take 3) hsub k (by simp [h4]; omega)
+            simp only [List.getElem_take] at hi' hpe
+            exact ⟨hi', hpe⟩
+          by_cases hh : wHarmless ws w (r.names.getD 3 []) = true
+          · have hex : expectNames ws r = some (r.names.take 3, w.ty) := by
+              simp only [expectNames, hone, if_false, hf, hi, if_true, hf3, hh]
+            simp only [expectBuilt, hex, Option.map_some, hty]
+            simp only [wHarmless, Bool.or_eq_true, Bool.not_eq_true', List.contains_eq_mem, decide_eq_false_iff_not,
+              List.any_eq_true, Bool.and_eq_true, decide_eq_true_eq, bne_iff_ne] at hh
+            rcases hh with habs | ⟨w', hw', ha', hty'⟩
+            · -- fourth name absent
+              have := buildReader_fallback binary (wsProps ws) r h4 hi hrn hpn w.ty ((r.names.take 3).map (posOf (wsProps ws)))
+                (by simp [h4])
+                (fun k hk => by
+                  obtain ⟨hi', hpe⟩ := hpos k hk
+                  exact ⟨by simpa using hi', by simpa using hpe⟩)
+                (by
+                  intro p hp e
+                  apply habs
+                  rw [hg3, ← e]; exact props_name_mem ws p hp)
+              rw [this]
+            · -- fourth name later in the header, another type
+              obtain ⟨A, hA⟩ := split_at_writer ws w hw
+              have hsplit : wsProps ws = wsProps (A ++ [w]) ++ wsProps (writersAfter ws w) := by
+                rw [← wsProps_append]
+                have : A ++ [w] ++ writersAfter ws w = ws := by
+                  simp only [List.append_assoc, List.singleton_append]; exact hA.symm
+                rw [this]
+              have hpos' := hpos
+              have hpn' := hpn
+              rw [hsplit] at hpn'
+              simp only [hsplit] at hpos' ⊢
+              have := buildReader_fallback_mixed binary (wsProps (A ++ [w])) (wsProps (writersAfter ws w)) r h4 hi hrn hpn'
+                w.ty w'.ty hty'
+                (fun k hk => (mem_wsProps _ _ _).mpr ⟨w, by simp, by
+                  rw [hwn]
+                  have : (r.names.take 3)[k]'(by simp [h4]; omega) = r.names[k]'(by omega) := by simp
+                  rw [← this]; exact List.getElem_mem _, rfl⟩)
+                ((mem_wsProps _ _ _).mpr ⟨w', hw', by rw [← hg3]; exact ha', rfl⟩)
+                ((r.names.take 3).map (posOf (wsProps (A ++ [w]) ++ wsProps (writersAfter ws w)))) (by simp [h4])
+                (fun k hk => by
+                  obtain ⟨hi', hpe⟩ := hpos' k hk
+                  exact ⟨by simpa using hi', by simpa using hpe⟩)
+              rw [this]
+          · have hex : expectNames ws r = none := by
+              simp only [expectNames, hone, if_false, hf, hi, if_true, hf3, hh]; rfl
+            obtain ⟨k, hk, hk3, habs⟩ := guard_absent ws r hone hg hex
+            rw [buildReader_absent binary _ r hlen k hk hk3 habs]
+            simp [expectBuilt, hex]
         | none =>
           have hex : expectNames ws r = none := by
-            simp only [expectNames, hone, if_false, hf, hc, if_true, hf3, Option.map_none]
+            simp only [expectNames, hone, if_false, hf, hi, if_true, hf3]
           obtain ⟨k, hk, hk3, habs⟩ := guard_absent ws r hone hg hex
           rw [buildReader_absent binary _ r hlen k hk hk3 habs]
           simp [expectBuilt, hex]
       · have hex : expectNames ws r = none := by
-          simp only [expectNames, hone, if_false, hf, hc]; rfl
+          simp only [expectNames, hone, if_false, hf, hi]; rfl
         obtain ⟨k, hk, hk3, habs⟩ := guard_absent ws r hone hg hex
         rw [buildReader_absent binary _ r hlen k hk hk3 habs]
         simp [expectBuilt, hex]
@@ -524,12 +583,16 @@ theorem expectNames_some (ws : List WProp) (r : RProp) (ns : List Bytes) (t : ST
       have hwn : w.names = r.names := by simpa using List.find?_some hf
       exact ⟨w, List.mem_of_find?_eq_some hf, rfl, by rw [hwn]; exact fun n h => h, .inl rfl⟩
     · split at h
-      · rename_i hc
-        simp only [Option.map_eq_some_iff, Prod.mk.injEq] at h
-        obtain ⟨w, hf, rfl, rfl⟩ := h
-        have hwn : w.names = r.names.take 3 := by simpa using List.find?_some hf
-        simp only [Bool.and_eq_true] at hc
-        exact ⟨w, List.mem_of_find?_eq_some hf, rfl, by rw [hwn]; exact fun n h => h, .inr ⟨hc.1, rfl⟩⟩
+      · rename_i hi
+        split at h
+        · rename_i w hf
+          split at h
+          · simp only [Option.some.injEq, Prod.mk.injEq] at h
+            obtain ⟨rfl, rfl⟩ := h
+            have hwn : w.names = r.names.take 3 := by simpa using List.find?_some hf
+            exact ⟨w, List.mem_of_find?_eq_some hf, rfl, by rw [hwn]; exact fun n h => h, .inr ⟨hi, rfl⟩⟩
+          · simp at h
+        · simp at h
       · simp at h
 
 /-- a reader that decodes, with the type of ONE writer, (some of) that writer's properties where they sit in the header;
@@ -764,12 +827,20 @@ theorem expect_of_comesBack (ws : List WProp) (hnd : (wsNames ws).Nodup) (hg : c
       obtain ⟨k, hk, hk3, habs⟩ := guard_absent ws r hone ((claimGuard_parts ws hg).1 r hr) hex
       exact habs (r.names[k], w.ty) ((mem_wsProps ws _ _).mpr ⟨w, hw, hmem k (hk3 hign), rfl⟩) rfl
     | some p =>
-      simp only [expectNames, hone, if_false, hf] at hex
-      split at hex
-      · simp only [Option.map_eq_some_iff] at hex
-        obtain ⟨w', _, rfl⟩ := hex
-        exact ⟨w'.ty, by rw [hn]⟩
-      · simp at hex
+      obtain ⟨ns, t⟩ := p
+      obtain ⟨_, _, _, _, hor⟩ := expectNames_some ws r ns t hex
+      rcases hor with h | ⟨_, h⟩
+      · exfalso
+        subst h
+        simp only [expectNames, hone, if_false, hf, hign, if_true] at hex
+        split at hex
+        · split at hex
+          · simp only [Option.some.injEq, Prod.mk.injEq] at hex
+            have := congrArg List.length hex.1
+            simp [h4] at this
+          · simp at hex
+        · simp at hex
+      · exact ⟨t, by rw [← hn, ← h]⟩
 
 /-- THE CLAIM STAGE on the header of `ws`, inside the guard (binary offsets or ASCII columns): every built reader is
 `Good`, no two share a key, every writer the reader recognises has a reader with its attribute and exactly its names -/
